@@ -30,7 +30,11 @@ class CurveClamp(ClampBase):
         else:
             initial = [curve.get_closest_param(position)]
 
-        super().__init__(position, lambda t: curve.get_point(t[0]), [list(curve.bounds)], initial)
+        lower, upper = curve.bounds
+        # finite-difference probes (optimizer's sensitivity, gradients) may step just outside the bounds
+        super().__init__(
+            position, lambda t: curve.get_point(min(max(t[0], lower), upper)), [list(curve.bounds)], initial
+        )
 
     @property
     def initial_guess(self):
